@@ -16,8 +16,8 @@ from lib import refcodec as rc
 from lib.core import ShardResult, REPO
 
 LEVEL = 'exploration'
-RULE = ('all assignments of 4 choices to 6 sections with at most K specified sections (quick K=2: 154 assignments, thorough '
-        'K=6: all 4096) x 4 OUT states, plus lua from a .lua file x OUT states x other sections, plus every error '
+RULE = ('all assignments of 4 choices to 6 sections with at most K specified sections (quick K=2: 154 assignments plus the 57 '
+        'assignments within one change of all-.p8 / all-.p8.png / all-empty, thorough K=6: all 4096) x 4 OUT states, plus lua from a .lua file x OUT states x other sections, plus every error '
         'combination per section (both --X and --empty-X, missing file, wrong extension) x OUT states; non-trivial = at '
         'least one section specified; distinct = distinct (assignment, OUT state)')
 ASSUMPTIONS = ['the "empty default" of a section is what the PICO-8-written tests/testdata/empty.p8 holds',
@@ -240,8 +240,13 @@ def run_error(env, sec, kind, state, res):
 
 
 def assignments(max_spec):
+    """Deviation-bounded around the four uniform assignments: within `max_spec` changes of all-unspecified, and (when
+    max_spec < 6) within 1 change of all-from-.p8, all-from-.p8.png and all-empty (so that "every section specified"
+    is reached in the quick tier too)."""
     for assign in itertools.product(CHOICES, repeat=6):
         if sum(1 for c in assign if c != 'none') <= max_spec:
+            yield assign
+        elif max_spec < 6 and any(sum(1 for c in assign if c != u) <= 1 for u in ('p8', 'png', 'empty')):
             yield assign
 
 
